@@ -1,4 +1,5 @@
 import PyrollModel.Proc
+import PyrollModel.ProcProg
 
 /-! Helper lemmas for C18 (core Lean only, no Mathlib): the per-class lists and the MRO walk (part 1),
 the processor chain and the solve procedures (part 2). -/
@@ -532,7 +533,7 @@ theorem initSolve_uout (E : Env) (st : RState) (u inp : Nat) (x : Nat) :
 theorem initSolve_marks (E : Env) (st : RState) (u inp : Nat) (o : Nat) :
     (initSolve E st u inp).1.heap.marks o =
       if o = (preChain E st u inp).1.n then (preChain E st u inp).1.marks (preChain E st u inp).2.1
-      else if o = (preChain E st u inp).1.n + 1 ∧ st.uout u = none then
+      else if (o = (preChain E st u inp).1.n + 1 ∧ st.uout u = none) ∨ st.uout u = some o then
         (preChain E st u inp).1.marks (preChain E st u inp).2.1
       else (preChain E st u inp).1.marks o := by
   unfold initSolve preChain
@@ -545,10 +546,15 @@ theorem initSolve_marks (E : Env) (st : RState) (u inp : Nat) (o : Nat) :
       · simp [h2]
       · simp [h1, h2]
   | some o' =>
-    simp only [Heap.alloc]
+    simp only [Heap.alloc, Heap.setMarks]
     by_cases h1 : o = (chain E true u (walk E.H true (E.ucls u)) st.heap inp).1.n
-    · simp [h1]
-    · simp [h1]
+    · by_cases h3 : o = o'
+      · simp [h1, h3]
+      · simp [h1, h3]
+    · by_cases h3 : o = o'
+      · subst h3; simp [h1]
+      · have h4 : o' ≠ o := fun e => h3 e.symm
+        simp [h1, h3, h4]
 
 /-- the post-processor chain run by `solve`: it starts on a NEW object (index `st.heap.n`) that copies the marks of
 `unit.out_profile` -/
@@ -664,5 +670,23 @@ theorem iterate_consultsOwn (E : Env) (s : Nat) (subs : List Nat) (k : Nat) :
     rw [iterate_succ]
     refine ConsultsOwnClass.cons_other (by intro w f v h; cases h) ?_
     exact ConsultsOwnClass.append (solveSubs_consultsOwn E subs _ _) (ih _)
+
+/-! ## Part 3 — helpers for the source tie (interpreter of the generated programs, `PyrollModel/ProcProg.lean`) -/
+
+/-- a walk none of whose rounds raises yields the concatenation of the rounds -/
+theorem collect_total (step : Nat → Option (List Nat)) (g : Nat → List Nat) (h : ∀ s, step s = some (g s))
+    (l : List Nat) : collect step l = some (l.flatMap g) := by
+  induction l with
+  | nil => rfl
+  | cons s ss ih => simp [collect, h s, ih]
+
+/-- `member` solves each of the listed sub-units like the model's leaf solve -/
+def SolvesLeaves (E : Env) (member : RState → Nat → Nat → Option (RState × Nat × List Ev)) (subs : List Nat) : Prop :=
+  ∀ c ∈ subs, ∀ st x, member st c x = some (solveLeaf E st c x)
+
+/-- a unit without sub-units is a sequence with no members whose loop is observed once -/
+theorem solveLeaf_eq_solveSeq (E : Env) (st : RState) (u inp : Nat) :
+    solveLeaf E st u inp = solveSeq E st u [] 1 inp := by
+  simp [solveLeaf, solveSeq, iterate, solveSubs]
 
 end Proc
